@@ -298,7 +298,11 @@ def widthAll (tbl : List (Str × Str)) : List Str → PStr → Except Err PStr
       | .ok l' => widthAll tbl r l'
       | .error e => .error e
 
-def ipKeys (s : Str) : List Str := (sortLenDesc (findIPv4 s)).filter (· != loopback)
+/-- `IPv4._ignore_list`: a list of WHOLE addresses -/
+def ignoreListV4 : List Str := [loopback]
+
+/-- `if ip not in self._ignore_list`: membership of the whole token in the list (not a substring test) -/
+def ipKeys (s : Str) : List Str := (sortLenDesc (findIPv4 s)).filter (fun ip => !ignoreListV4.contains ip)
 
 def ipStage (tbl : List (Str × Str)) (width : Bool) (l : PStr) : Except Err PStr :=
   if width then widthAll tbl (ipKeys (chars l)) l
@@ -387,10 +391,11 @@ def findMac (s : Str) : List Str := scanMac none 0 s
 
 def lowerA (c : Char) : Char := if isUpperA c then Char.ofNat (c.toNat + 32) else c
 
-/-- the ignore list: `00:00:00:00:00:00` and `ff:ff:ff:ff:ff:ff` (any case; `:` only) -/
-def macIgnored (m : Str) : Bool :=
-  let l := m.map lowerA
-  l == "00:00:00:00:00:00".toList || l == "ff:ff:ff:ff:ff:ff".toList
+/-- the ignore list `\\b(?:(?:00:){5}00|(?:ff:){5}ff)\\b` (re.I) on a found address, i.e. on exactly 17 characters: the
+WHOLE address is one of these two forms (any case; `:` only — the `-` forms are obfuscated) -/
+def macIgnoreList : List Str := ["00:00:00:00:00:00".toList, "ff:ff:ff:ff:ff:ff".toList]
+
+def macIgnored (m : Str) : Bool := macIgnoreList.contains (m.map lowerA)
 
 def macKeys (s : Str) : List Str := (findMac s).filter (fun m => !macIgnored m)
 
